@@ -58,7 +58,7 @@ def op_variants(op, n, c, nbits, rng, quick):
                and (tf, ff) != (1, 1)]
         return out[: 4 if quick else 9]
     if op == "subband":
-        out = [{"dm": dm, "nsub": ns} for dm in (0.0, 0.2, 0.4) for ns in (1, 2, c) if c % ns == 0]
+        out = [{"dm": dm, "nsub": ns} for dm in (0.05, 0.0, 0.2) for ns in (1, 2, c) if c % ns == 0]     # 0.05: delays of 1-2 samples at this band, so short ranges stay inside the precondition
         return out[: 4 if quick else 9]
     return [{}]
 
@@ -123,6 +123,12 @@ def build_specs(rng, quick, ops, keep_snapshots=False, band=None):
             n = 2 * tf + rng.randrange(0, 3)
             add(n, c, nbits, rng.choice([1, 2]), "const" if (tf + ff) % 3 else "random",
                 [dict(op="downsample", gulp=rng.choice([1, tf, tf + 1, 3 * tf, n + 1]), start=0, nsamps=n, tf=tf, ff=ff)])
+    if "downsample" in ops:
+        # float data of wide dynamic range: the block mean is defined on the real values, not on a float32 running sum
+        for (tf, ff, c) in ([(2, 2, 4), (1, 4, 4), (3, 1, 2)] if quick else [(2, 2, 4), (1, 4, 4), (3, 1, 2), (3, 2, 4), (2, 4, 8), (5, 1, 1), (4, 2, 2)]):
+            n = 3 * tf + rng.randrange(0, tf + 1)
+            add(n, c, 32, rng.choice([1, 2]), f"dynrange:{tf}:{ff}",
+                [dict(op="downsample", gulp=g, start=0, nsamps=n, tf=tf, ff=ff) for g in (1, tf, n + 1)])
     for _ in range(12 if quick else 150):
         nbits = rng.choice([1, 2, 4, 8, 32])
         c = rng.choice(DEPTH_CH[nbits])
